@@ -123,6 +123,18 @@ theorem Num.not_lt_iff_le (x m : Num) (hx : x.isNan = false) (hm : m.isNan = fal
 def numDeclHolds (c : NumConv) (x : Num) : Prop :=
   (∀ m, c.minVal = some m → m.le x) ∧ (∀ m, c.maxVal = some m → x.le m)
 
+theorem numLtOpt_false_iff (x : Num) (b : Option Num) (hx : x.isNan = false) (hb : ∀ m, b = some m → m.isNan = false) :
+    numLtOpt x b = false ↔ ∀ m, b = some m → m.le x := by
+  cases b with
+  | none => simp [numLtOpt]
+  | some m => simp [numLtOpt, Num.not_lt_iff_le x m hx (hb m rfl)]
+
+theorem numGtOpt_false_iff (x : Num) (b : Option Num) (hx : x.isNan = false) (hb : ∀ m, b = some m → m.isNan = false) :
+    numGtOpt x b = false ↔ ∀ m, b = some m → x.le m := by
+  cases b with
+  | none => simp [numGtOpt]
+  | some m => simp [numGtOpt, Num.not_lt_iff_le m x (hb m rfl) hx]
+
 /-- the full statement for float attributes (false: see `C08_float_full_false`) -/
 def C08_float_full : Prop :=
   ∀ (toFloat : Val → Except String Num) (c : NumConv) (v : Val),
@@ -132,7 +144,8 @@ def C08_float_full : Prop :=
     (Replayed on the real code by the engine on every run.) -/
 theorem C08_float_full_false : ¬ C08_float_full := by
   intro h
-  have := (h (fun _ => .ok .nan) { minVal := some (.fin 0 1), maxVal := none } (.flt .nan)).mp ⟨.flt .nan, by simp [realValidate, Num.lt]⟩
+  have := (h (fun _ => .ok .nan) { minVal := some (.fin 0 1), maxVal := none } (.flt .nan)).mp
+    ⟨.flt .nan, by simp [realValidate, numLtOpt, numGtOpt, Num.lt]⟩
   obtain ⟨x, hx, hd⟩ := this
   injection hx with hx
   subst hx
@@ -149,35 +162,47 @@ theorem C08_float_partial (toFloat : Val → Except String Num) (c : NumConv) (v
   | error e => simp
   | ok x =>
     have hxn := hv x hx
-    obtain ⟨mn, mx⟩ := c
     simp only [Except.ok.injEq, exists_eq_left']
-    rcases mn with _ | mn <;> rcases mx with _ | mx
-    · simp
-    · have := Num.not_lt_iff_le mx x (hmax mx rfl) hxn
-      by_cases h2 : mx.lt x = true <;> simp_all
-    · have := Num.not_lt_iff_le x mn hxn (hmin mn rfl)
-      by_cases h1 : x.lt mn = true <;> simp_all
-    · have a := Num.not_lt_iff_le x mn hxn (hmin mn rfl)
-      have b := Num.not_lt_iff_le mx x (hmax mx rfl) hxn
-      by_cases h1 : x.lt mn = true <;> by_cases h2 : mx.lt x = true <;> simp_all
+    rw [← numLtOpt_false_iff x c.minVal hxn hmin, ← numGtOpt_false_iff x c.maxVal hxn hmax]
+    cases h1 : numLtOpt x c.minVal <;> cases h2 : numGtOpt x c.maxVal <;> simp
 
-/-- `RealConverter.validate` is idempotent on accepted values (`float(x) == x` for a float `x`) -/
-theorem C08_float_idem (toFloat : Val → Except String Num) (c : NumConv) (v r : Val)
-    (hf : ∀ x, toFloat (.flt x) = .ok x) (h : realValidate toFloat c v = .ok r) : realValidate toFloat c r = .ok r := by
+/-- the accepted value is `float(val)` -/
+theorem C08_float_value (toFloat : Val → Except String Num) (c : NumConv) (v r : Val)
+    (h : realValidate toFloat c v = .ok r) : ∃ x, toFloat v = .ok x ∧ r = .flt x := by
   unfold realValidate at h
   cases hx : toFloat v with
   | error e => simp [hx] at h
   | ok x =>
     simp only [hx] at h
-    split at h
-    · cases h
-    · split at h
-      · cases h
-      · injection h with h; subst h
-        unfold realValidate
-        simp_all
+    cases h1 : numLtOpt x c.minVal <;> cases h2 : numGtOpt x c.maxVal <;> simp [h1, h2] at h
+    exact ⟨x, rfl, h.symm⟩
+
+/-- `RealConverter.validate` is idempotent on accepted values (`float(x) == x` for a float `x`) -/
+theorem C08_float_idem (toFloat : Val → Except String Num) (c : NumConv) (v r : Val)
+    (hf : ∀ x, toFloat (.flt x) = .ok x) (h : realValidate toFloat c v = .ok r) : realValidate toFloat c r = .ok r := by
+  obtain ⟨x, hx, rfl⟩ := C08_float_value toFloat c v r h
+  unfold realValidate at h ⊢
+  simp only [hx] at h
+  simp only [hf]
+  exact h
 
 /-! ### Decimal -/
+
+theorem decLtOpt_ok_false_iff (x : Num) (b : Option Num) :
+    decLtOpt x b = .ok false ↔ ∀ m, b = some m → x.isNan = false ∧ m.isNan = false ∧ m.le x := by
+  cases b with
+  | none => simp [decLtOpt]
+  | some m =>
+    simp only [decLtOpt, decLt, Option.some.injEq, forall_eq']
+    cases hx : x.isNan <;> cases hm : m.isNan <;> simp [Num.not_lt_iff_le x m, hx, hm]
+
+theorem decGtOpt_ok_false_iff (x : Num) (b : Option Num) :
+    decGtOpt x b = .ok false ↔ ∀ m, b = some m → x.isNan = false ∧ m.isNan = false ∧ x.le m := by
+  cases b with
+  | none => simp [decGtOpt]
+  | some m =>
+    simp only [decGtOpt, decLt, Option.some.injEq, forall_eq']
+    cases hx : x.isNan <;> cases hm : m.isNan <;> simp [Num.not_lt_iff_le m x, hx, hm]
 
 /-- **Decimal attributes.** Accepted iff `Decimal(val)` succeeds and the declared bounds hold; a NaN operand makes a
     declared bound unsatisfiable (the comparison raises), without bounds every Decimal is accepted. -/
@@ -185,53 +210,44 @@ theorem C08_decimal (toDec : Val → Except String Num) (c : NumConv) (v : Val) 
     accepted (decValidate toDec c v) ↔
       ∃ x, toDec v = .ok x ∧ (∀ m, c.minVal = some m → x.isNan = false ∧ m.isNan = false ∧ m.le x) ∧
                              (∀ m, c.maxVal = some m → x.isNan = false ∧ m.isNan = false ∧ x.le m) := by
-  unfold decValidate accepted decLt
+  unfold decValidate accepted
   cases hx : toDec v with
   | error e => simp
   | ok x =>
-    obtain ⟨mn, mx⟩ := c
     simp only [Except.ok.injEq, exists_eq_left']
-    rcases mn with _ | mn <;> rcases mx with _ | mx
+    rw [← decLtOpt_ok_false_iff, ← decGtOpt_ok_false_iff]
+    rcases h1 : decLtOpt x c.minVal with e | b
     · simp
-    · by_cases hn : x.isNan = true
-      · simp [hn]
-      · by_cases hm : mx.isNan = true
-        · simp [hm]
-        · have := Num.not_lt_iff_le mx x (by simpa using hm) (by simpa using hn)
-          by_cases h2 : mx.lt x = true <;> simp_all
-    · by_cases hn : x.isNan = true
-      · simp [hn]
-      · by_cases hm : mn.isNan = true
-        · simp [hm]
-        · have := Num.not_lt_iff_le x mn (by simpa using hn) (by simpa using hm)
-          by_cases h1 : x.lt mn = true <;> simp_all
-    · by_cases hn : x.isNan = true
-      · simp [hn]
-      · by_cases hm : mn.isNan = true
-        · simp [hm]
-        · by_cases hm2 : mx.isNan = true
-          · have := Num.not_lt_iff_le x mn (by simpa using hn) (by simpa using hm)
-            by_cases h1 : x.lt mn = true <;> simp_all
-          · have a := Num.not_lt_iff_le x mn (by simpa using hn) (by simpa using hm)
-            have b := Num.not_lt_iff_le mx x (by simpa using hm2) (by simpa using hn)
-            by_cases h1 : x.lt mn = true <;> by_cases h2 : mx.lt x = true <;> simp_all
+    · cases b
+      · rcases h2 : decGtOpt x c.maxVal with e | b
+        · simp
+        · cases b <;> simp
+      · simp
 
-theorem C08_decimal_idem (toDec : Val → Except String Num) (c : NumConv) (v r : Val)
-    (hf : ∀ x, toDec (.dec x) = .ok x) (h : decValidate toDec c v = .ok r) : decValidate toDec c r = .ok r := by
+theorem C08_decimal_value (toDec : Val → Except String Num) (c : NumConv) (v r : Val)
+    (h : decValidate toDec c v = .ok r) : ∃ x, toDec v = .ok x ∧ r = .dec x := by
   unfold decValidate at h
   cases hx : toDec v with
   | error e => simp [hx] at h
   | ok x =>
     simp only [hx] at h
-    split at h
-    · cases h
-    · cases h
-    · split at h
-      · cases h
-      · cases h
-      · injection h with h; subst h
-        unfold decValidate
-        simp_all
+    rcases h1 : decLtOpt x c.minVal with e | b
+    · simp [h1] at h
+    · cases b
+      · rcases h2 : decGtOpt x c.maxVal with e | b
+        · simp [h1, h2] at h
+        · cases b
+          · simp [h1, h2] at h; exact ⟨x, rfl, h.symm⟩
+          · simp [h1, h2] at h
+      · simp [h1] at h
+
+theorem C08_decimal_idem (toDec : Val → Except String Num) (c : NumConv) (v r : Val)
+    (hf : ∀ x, toDec (.dec x) = .ok x) (h : decValidate toDec c v = .ok r) : decValidate toDec c r = .ok r := by
+  obtain ⟨x, hx, rfl⟩ := C08_decimal_value toDec c v r h
+  unfold decValidate at h ⊢
+  simp only [hx] at h
+  simp only [hf]
+  exact h
 
 /-! ### str -/
 
